@@ -70,10 +70,17 @@ func dataID(b []byte) string {
 // projectESL parses a byte stream into lists according to the size fields.  malformed is set
 // when the stream cannot be split according to its own size fields.
 func projectESL(b []byte) (lists []pList, malformed bool) {
+	lists, malformed, _, _ = projectESLRest(b)
+	return
+}
+
+// projectESLRest additionally reports, for a malformed stream, how many bytes were left when the
+// reader stopped and whether a list header could still be read at that point.
+func projectESLRest(b []byte) (lists []pList, malformed bool, rest int, hdrRead bool) {
 	lists = []pList{}
 	for len(b) > 0 {
 		if len(b) < 28 {
-			return lists, true
+			return lists, true, len(b), false
 		}
 		l := pList{Type: lookupWire(typeGUIDWire, b[:16]), Entries: []pEntry{}}
 		l.ListSize = int(binary.LittleEndian.Uint32(b[16:]))
@@ -81,13 +88,13 @@ func projectESL(b []byte) (lists []pList, malformed bool) {
 		l.Size = int(binary.LittleEndian.Uint32(b[24:]))
 		if l.ListSize < 28+l.HdrSize || l.ListSize > len(b) {
 			lists = append(lists, l)
-			return lists, true
+			return lists, true, len(b), true
 		}
 		body := b[28+l.HdrSize : l.ListSize]
 		if len(body) > 0 {
 			if l.Size < 16 || len(body)%l.Size != 0 {
 				lists = append(lists, l)
-				return lists, true
+				return lists, true, len(b), true
 			}
 			for i := 0; i < len(body); i += l.Size {
 				e := body[i : i+l.Size]
@@ -97,7 +104,7 @@ func projectESL(b []byte) (lists []pList, malformed bool) {
 		lists = append(lists, l)
 		b = b[l.ListSize:]
 	}
-	return lists, false
+	return lists, false, 0, false
 }
 
 func le32(v uint32) []byte { var b [4]byte; binary.LittleEndian.PutUint32(b[:], v); return b[:] }
